@@ -161,6 +161,10 @@ def guard_atoms(F, an, st):
             n = norm(an.simp(f[1], st.facts))
             if n[0] == "fld" and n[1] == F_(P(1), "ehdr"):
                 atoms.add(("hdr", n[2], f[0], f[2]))
+    # saturation: an entry found in a table implies the table is not empty (so an explicit emptiness test before the search adds nothing)
+    for a in list(atoms):
+        if a[0] == "found" and a[-1] is True and a[1] in ("shdr", "phdr"):
+            atoms.add(("has", a[1] + "s", True))
     return frozenset(atoms)
 
 
